@@ -744,6 +744,31 @@ pub fn built_cases(posix_alphabet: &[String]) -> Vec<(String, Vec<u8>)> {
             }
         }
     }
+    // 4b. designation tables on both sides of the u8 index space whose footer
+    // needs an abbreviation the table does not hold as a whole entry (the
+    // in-memory fattening appends it: the appended entry's end index crosses
+    // 255 for tables of 253..=255 bytes). The daylight type points at the
+    // filler run instead of `EDT`.
+    for len in 236usize..=262 {
+        let mut c = b"LMT\0EST\0".to_vec();
+        c.resize(len - 1, b'A');
+        c.push(0);
+        let mut t = base.clone();
+        t.chars = c;
+        t.types[2].2 = 8;
+        out.push((format!("chars len-{} without the footer's daylight abbreviation (footer kept)", len), t));
+    }
+    // 4c. trailing bytes after the last NUL of the table (unterminated, not
+    // referenced by any type) while the footer needs an abbreviation that has to
+    // be appended: plain ASCII, and multi-byte characters
+    for (name, tail) in [("ascii", "xy".as_bytes().to_vec()), ("2-byte", "É".as_bytes().to_vec()), ("3-byte", "€".as_bytes().to_vec()), ("4-byte", "\u{1F552}".as_bytes().to_vec()), ("4-byte+ascii", "\u{1F552}z".as_bytes().to_vec())] {
+        let mut c = b"LMT\0EST\0".to_vec();
+        c.extend_from_slice(&tail);
+        let mut t = base.clone();
+        t.chars = c;
+        t.types[2].2 = 4;
+        out.push((format!("chars unterminated {} tail, footer's daylight abbreviation absent (footer kept)", name), t));
+    }
     // 5. isdst
     for d in [2u8, 127, 255] {
         let mut t = base.clone();
